@@ -31,6 +31,9 @@ def check(ctx):
 
 
 # --------------------------------------------------------------------------------------------- S1, S2
+FIELDS_USED = set()
+
+
 def accessor(ctx, qn, col):
     fn = ctx.fn(qn)
     # the caller's view of the signature: (self, <time>, <asset>) whatever the parameters are called
@@ -65,8 +68,41 @@ def accessor(ctx, qn, col):
         calls = meth_calls_in(p, LOOKUPS)
         idx = [c for c in calls if c[1] == ('meth', 'get_indexer')]
         others = [c for c in calls if c[1] != ('meth', 'get_indexer')]
+        # a binary search over the time column (searchsorted / bisect) is a lookup whose position arithmetic (side, -1) this rule does not evaluate: left open.
+        # anything else of the family (asof, nearest, shift, idxmax, ...) is a different question than "the last row at or before dt"
+        positional = [c for c in others if c[1][1] in ('searchsorted', 'bisect', 'bisect_left', 'bisect_right')]
+        positional += [s_ for t_ in [v] for s_ in T.subterms(t_) if s_[0] == 'call' and s_[1][0] == 'ext' and s_[1][1].split('.')[-1] in ('searchsorted', 'bisect', 'bisect_left', 'bisect_right')]
+        others = [c for c in others if c not in positional]
         ctx.require(not others, 'C06.S1', '%s uses no lookup other than get_indexer [%s]' % (qn, cond_str(p)[:60]), fn.site(),
                     'other lookup(s): %s' % sorted({fmt(c)[:80] for c in others}), key='C06.S1|%s|other-lookup' % qn)
+        if positional and not idx:
+            # searchsorted(dt, side) is the number of stamps < dt (left, the default) or <= dt (right): the last row at or before dt is at
+            # searchsorted(dt, side='right') - 1.  Used as a position without the -1 it is the first row AT OR AFTER dt (a later bar); left - 1 skips a bar stamped exactly dt.
+            s0 = positional[0]
+            side = dict(s0[3]).get('side', s0[2][-1] if (s0[1][0] == 'meth' and len(s0[2]) >= 3) or (s0[1][0] == 'ext' and len(s0[2]) >= 3) else None)
+            right = side == ('str', 'right') or s0[1][1].split('.')[-1] in ('bisect', 'bisect_right')
+            uses = [s_ for s_ in T.subterms(v) if s_[0] == 'sub' and any(z_ == s0 for z_ in T.subterms(s_[2]))]
+            verdict = None
+            for u in uses:
+                ix = u[2]
+                if ix[0] == 'tuple' and ix[1]:
+                    ix = ix[1][0]
+                if T.teq(ix, s0):
+                    verdict = 'at-or-after'
+                elif T.teq(ix, T.t_sub(s0, num(1))):
+                    verdict = verdict or ('ok' if right else 'strictly-before')
+            if verdict == 'at-or-after':
+                ctx.violation('C06.S1', '%s looks up the last row at or before dt' % qn, fn.site(),
+                              'row %s: the count of earlier stamps used as a position is the first row at or after dt - a later bar whenever dt falls between two bars [%s]'
+                              % (fmt(s0)[:80], cond_str(p)[:60]), key='C06.S1|%s|method' % qn)
+            elif verdict == 'strictly-before':
+                ctx.violation('C06.S1', '%s looks up the last row at or before dt' % qn, fn.site(),
+                              'row %s - 1 with side=left: a bar stamped exactly dt is skipped' % fmt(s0)[:80], key='C06.S1|%s|method' % qn)
+            elif verdict == 'ok':
+                ctx.holds('C06.S1', '%s looks up the last row at or before dt (searchsorted side=right, minus one) [%s]' % (qn, cond_str(p)[:60]), fn.site())
+            else:
+                ctx.undecided('C06.S1', '%s locates the row by one get_indexer call [%s]' % (qn, cond_str(p)[:60]), fn.site(), 'binary search over the time column: %s' % fmt(positional[0])[:100])
+            continue
         distinct = []
         for c in idx:
             if c not in distinct:
@@ -86,9 +122,41 @@ def accessor(ctx, qn, col):
         ok = meth is not None and meth[0] == 'str' and meth[1] in PAD
         ctx.require(ok, 'C06.S1', '%s looks up the last row at or before dt (method pad/ffill)' % qn, fn.site(),
                     'method=%s' % (fmt(meth) if meth is not None else 'None (exact match only)'), key='C06.S1|%s|method' % qn)
-        ok = g[2][0] == ('attr', FRAME, 'index') and len(g[2]) >= 2 and g[2][1] in (('list', (DT,)), ('tuple', (DT,)))
-        ctx.require(ok, 'C06.S1', '%s queries the timestamp index of the asset\'s bid/ask frame with its own dt' % qn, fn.site(), fmt(g)[:200],
-                    key='C06.S1|%s|target' % qn)
+        # the per-asset data the index belongs to: <self.F>[asset] for a field F built at construction (frames, or records of time/bid/ask columns)
+        roots = [s_ for s_ in T.subterms(g[2][0]) if s_[0] == 'sub' and s_[1][0] == 'attr' and s_[1][1] == V('self') and s_[2] == FRAME[2]]
+        if roots and roots[0] != FRAME:
+            FRAME = roots[0]
+        chain_to_root = chain_ops(g[2][0], stop=FRAME)
+        ok_target = bool(roots) and chain_to_root[0][1] == FRAME and all(o[0] in ('attr', 'sub', 'root') for o in chain_to_root)
+        ok_key = len(g[2]) >= 2 and g[2][1] in (('list', (DT,)), ('tuple', (DT,)))
+        key_note = None
+        if not ok_key and len(g[2]) >= 2 and g[2][1][0] in ('list', 'tuple') and len(g[2][1][1]) == 1:
+            # the instant queried is dt put through time-zone conversions (the same instant) and/or rounding steps: rounding DOWN can only move the query earlier
+            # (no later bar is seen; whether the answer is unchanged depends on the resolution of the stamps - left open), rounding up or to nearest can move it later
+            k_, steps = g[2][1][1][0], []
+            while k_[0] == 'call' and k_[1][0] == 'meth' and k_[1][1] in ('tz_convert', 'tz_localize', 'floor', 'round', 'ceil', 'normalize', 'to_pydatetime', 'as_unit') and k_[2]:
+                steps.append(k_[1][1])
+                k_ = k_[2][0]
+            if k_ == DT and steps:
+                if any(s_ in ('round', 'ceil') for s_ in steps):
+                    ctx.violation('C06.S1', '%s queries the timestamp index of the asset\'s bid/ask frame with its own dt' % qn, fn.site(),
+                                  'the instant queried is dt.%s(): rounded up or to nearest it can lie AFTER dt, and a bar that opens only then is already visible' % '.'.join(reversed(steps)),
+                                  key='C06.S1|%s|target' % qn)
+                    continue
+                if all(s_ in ('tz_convert',) for s_ in steps):
+                    ok_key = True
+                else:
+                    key_note = 'the instant queried is dt.%s()' % '().'.join(reversed(steps))
+        if key_note is not None and roots and ok_target:
+            ctx.undecided('C06.S1', '%s queries the timestamp index of the asset\'s bid/ask frame with its own dt' % qn, fn.site(),
+                          key_note + ': never later than dt; equal answers presuppose stamps on that grid')
+            FIELDS_USED.add(FRAME[1][2])
+        elif not roots:
+            ctx.undecided('C06.S1', '%s queries the timestamp index of the asset\'s bid/ask frame with its own dt' % qn, fn.site(), 'index of %s' % fmt(g[2][0])[:120])
+        else:
+            ctx.require(ok_target and ok_key, 'C06.S1', '%s queries the timestamp index of the asset\'s bid/ask frame with its own dt' % qn, fn.site(), fmt(g)[:200],
+                        key='C06.S1|%s|target' % qn)
+            FIELDS_USED.add(FRAME[1][2])
         ctx.require(not set(kws) - {'method'}, 'C06.S1', '%s: no tolerance/limit on the lookup' % qn, fn.site(), sorted(kws), key='C06.S1|%s|kwargs' % qn)
         # the value returned is the column at that row: some chain over FRAME, .iloc[g or g[0]], [col]
         ops = chain_ops(v, stop=FRAME)
@@ -97,10 +165,16 @@ def accessor(ctx, qn, col):
         ok_root = root == FRAME
         used_idx = [o for o in ops if o[0] == 'sub' and any(s == g for s in T.subterms(o[1]))]
         colsub = [o for o in ops if o[0] == 'sub' and o[1][0] == 'str']
-        good = ok_root and len(used_idx) == 1 and ('.iloc' in names or '.iat' in names) and len(colsub) == 1 and colsub[0][1][1] in ('Bid', 'Ask')
-        extra = [x for x in names if x not in ('.iloc', '.iat', '[]', '.values', 'item')]
-        ctx.require(good and not extra, 'C06.S1', '%s returns the %s column of the row found, unmodified' % (qn, col), fn.site(), fmt(v)[:200],
-                    key='C06.S1|%s|value' % qn)
+        # which side is selected: a column named Bid/Ask, or a record field bid/ask
+        named = [o[1][1] for o in ops if o[0] == 'sub' and o[1][0] == 'str'] + [o[1] for o in ops if o[0] == 'attr' and o[1].lstrip('._').lower() in ('bid', 'ask')]
+        sides = [n_.lstrip('._').lower() for n_ in named if n_.lstrip('._').lower() in ('bid', 'ask')]
+        extra = [x for x in names if x not in ('.iloc', '.iat', '[]', '.values', 'item') and not (x.startswith('.') and x.lstrip('._').lower() in ('bid', 'ask', 'loc'))]
+        if not ok_root or (not sides and not extra):
+            ctx.undecided('C06.S1', '%s returns the %s column of the row found, unmodified' % (qn, col), fn.site(), 'value %s' % fmt(v)[:160])
+        else:
+            good = len(used_idx) == 1 and sides == [col.lower()]
+            ctx.require(good and not extra, 'C06.S1', '%s returns the %s column of the row found, unmodified' % (qn, col), fn.site(), fmt(v)[:200],
+                        key='C06.S1|%s|value' % qn)
         if colsub:
             ctx.require(colsub[0][1][1] in converter_columns(ctx), 'C06.S5', '%s reads a column the converter builds' % qn, fn.site(), colsub[0][1][1],
                         key='C06.S5|%s|column' % qn)
@@ -131,7 +205,10 @@ def accessor(ctx, qn, col):
         ctx.sample({'rule': 'C06.S1/S2', 'accessor': qn, 'path': cond_str(p)[:120], 'value': fmt(v)[:160]})
     ctx.require(valued >= 1, 'C06.S1', '%s has a path that returns a price' % qn, fn.site(), key='C06.S1|%s|valued' % qn)
     nanpaths = [p for p in ps if p.outcome == 'return' and p.value == NAN]
-    ctx.require(len(nanpaths) >= 1, 'C06.S2', '%s answers NaN when no bar opens at or before dt' % qn, fn.site(), key='C06.S2|%s|nan' % qn)
+    if not nanpaths and valued == 0:
+        ctx.undecided('C06.S2', '%s answers NaN when no bar opens at or before dt' % qn, fn.site(), 'no path of the accessor was read')
+    else:
+        ctx.require(len(nanpaths) >= 1, 'C06.S2', '%s answers NaN when no bar opens at or before dt' % qn, fn.site(), key='C06.S2|%s|nan' % qn)
     # no state besides the frames is read or written (memoisation-safe, history-independent)
     for p in ps:
         ws = [w for w in heap_writes(p) if not (loc_attr(w.loc) in sound)]
@@ -285,9 +362,15 @@ def converter(ctx):
             ctx.require(not adj, 'C06.S5', 'no adjustment when adjust_prices is off', fn.site(), key='C06.S5|no-adjust')
         ctx.sample({'rule': 'C06.S3', 'path': tag, 'pipeline': names})
     # the converter is applied to every loaded frame, once, in __init__
-    ws = writers_of_attr(ctx.M, 'asset_bid_ask_frames')
-    ctx.require(len(ws) == 1 and ws[0].fn.qn == 'CSVDailyBarDataSource.__init__', 'C06.S6', 'the bid/ask frames are built once, in the constructor', ws[0].where if ws else None,
-                [w.fn.qn for w in ws], key='C06.S6|frames-writer')
+    # the per-asset quote data the accessors were seen to query (the frames dict, or whatever field replaced it) is built at construction and never rebound
+    for fld in sorted(FIELDS_USED or {'asset_bid_ask_frames'}):
+        ws = [w for w in writers_of_attr(ctx.M, fld, owner='CSVDailyBarDataSource') if w.how.startswith('assign:field')]
+        cls_ = ctx.cls('CSVDailyBarDataSource')
+        ok = bool(ws) and all(w.fn.cls is not None and w.fn.cls.name in ctx.M.owner_family('CSVDailyBarDataSource') and (w.fn.name == '__init__' or ctx.M.ctor_only(w.fn)) for w in ws)
+        if not ws:
+            ctx.undecided('C06.S6', 'the per-asset quote data (%s) are built once, in the constructor' % fld, None, 'no direct assignment of the field found')
+        else:
+            ctx.require(ok, 'C06.S6', 'the per-asset quote data (%s) are built once, in the constructor' % fld, ws[0].where, [w.fn.qn for w in ws], key='C06.S6|frames-writer')
 
 
 def _subseq(seq, pat):
